@@ -138,7 +138,11 @@ class ParallelSourcePlugin(Plugin):
         return self.sub_plugins[self.start_from].is_ready(chunk_i)
 
     def do_compute(self, chunk_i=None, **kwargs):
-        results = kwargs
+        # Inputs arrive merged per data kind; the sub-plugins look their
+        # dependencies up by data type
+        results = {
+            d: kwargs[kind] for kind, d_of_kind in self.dependencies_by_kind().items() for d in d_of_kind
+        }
 
         # Run the different plugin computations
         while True:
